@@ -454,6 +454,10 @@ def main():
         reason, h, exc = cres
         head = hint_head(h) if h is not None else 'n/a'
         key = f'{reason}:{obj_kind(cur)}->{head}'
+        if reason == 'check-raised:BeartypeDecorHintRecursionException' and 'Recursion detected when generating code' in str(exc):
+            # one mechanism whatever the object: the inferred hint has more (transitive) child hints than the code
+            # generator's fixed-size hint queue holds; which container happens to be minimal is irrelevant
+            key = 'check-raised:inferred-hint-overflows-hint-queue'
         W.violation(key, f'[{label}] is_bearable(x, infer_hint(x)) fails: minimal failing sub-object {short(cur, 120)} '
                          f'inferred as {short(h, 200)} ({reason}); found inside {short(x, 160)}', stream, idx,
                     dict(minimal=short(cur, 300), inferred=short(h, 300), original=short(x, 400), conf=label,
@@ -474,6 +478,14 @@ def main():
             duck({'__getitem__', '__len__', '__contains__', '__iter__', '__reversed__', 'index', 'count'}, [1, 2]),
             duck({'__getitem__', '__len__', '__contains__', '__iter__', 'keys', 'items', 'values', 'get', '__eq__'}, [1, 2]),
         ]
+        # a list of 150 structurally different nested items: its inferred hint is a union of 150 subscripted members,
+        # more child hints than the code generator's fixed-size hint queue holds (open finding)
+        def _nest(v, d, kind):
+            for j in range(d):
+                v = [v] if (kind >> j) & 1 else ({v} if not isinstance(v, (list, set, tuple)) else (v,))
+            return v
+        _leaves = [1, 'a', b'b', 1.0, None, True, 2j]
+        fams.append([[_nest(_leaves[k % 7], 1 + (k // 7) % 5, k // 35) for k in range(150)]])
         for i, x in enumerate(fams):
             if is_hint_like(x):
                 W.count('hint_like_objects_recorded_only')
